@@ -8,7 +8,8 @@ from vlib.runner import fail, hyp_run
 LEVEL = "exploration"
 RULE_EXTRA = (" A third of the generated cases also call DoLocalRefinement(3) after one of the batches (the global "
               "trials before and after it must still be the reference prefix) and/or repeat a 25-trial run with the solver's "
-              "default parameters around the creation of another default-parameter solver of dimension 1..7.")
+              "default parameters, the second time with its iterations alternating with those of another default-parameter "
+              "solver of dimension 1..7.")
 RULE = ("Differential, real solver against real solver. Reference = one solver driven by a single "
         "DoGlobalIteration(K); n* = stopping index of a plain Solve(). (a) exhaustive: for Hypothesis-drawn "
         "problems with itersLimit<=10 EVERY composition of every total 1..10 into DoGlobalIteration batches, "
